@@ -7,6 +7,8 @@ Output: "#case" lines are echoed; one model line per operation.
 import LA.Drive.Lnk
 import LA.Drive.ReadAhead
 import LA.Drive.ReadObs
+import LA.Drive.Pm
+import LA.Drive.Match
 open LA
 
 def engines : List (String × Engine) := [
@@ -15,7 +17,9 @@ def engines : List (String × Engine) := [
   ("part", LA.ReadObs.enginePart),
   ("cons", LA.ReadObs.engineCons),
   ("trunc", LA.ReadObs.engineTrunc),
-  ("rd", LA.ReadObs.engineRd)
+  ("rd", LA.ReadObs.engineRd),
+  ("pm", LA.Pm.engine),
+  ("match", LA.Match.engine)
 ]
 
 partial def loop (e : Engine) (h : IO.FS.Stream) (out : IO.FS.Stream) (s : e.σ) : IO Unit := do
